@@ -38,7 +38,10 @@ def _build(c, dst):
         xx = xr.DataArray(arr, dims=("band", *gb.dimensions), coords=xr_coords(gb), attrs=({"nodata": kw["nodata"]} if kw else {}))
     else:
         xx = wrap_xr(arr, gb, **kw)
-    ch = {xx.odc.spatial_dims[0]: c["chunks"][0], xx.odc.spatial_dims[1]: c["chunks"][1]}
+    cy, cx = (c["chunks"][0] or c["blocks"][0]), (c["chunks"][1] or c["blocks"][0])
+    ch = {xx.odc.spatial_dims[0]: cy, xx.odc.spatial_dims[1]: cx}
+    if c.get("schunk") and c["axis"] != "YX":
+        ch[[d for d in xx.dims if d not in xx.odc.spatial_dims][0]] = c["schunk"]
     xx = xx.chunk(ch)
     wkw = {"blocksize": list(c["blocks"]), "stats": False, "compression": c["comp"]}
     if c["spill"]:
